@@ -13,7 +13,11 @@ PoolQuick == {
   K("vol",  {}, {}, TRUE, FALSE, {}, FALSE),
   K("vauth", {}, {}, TRUE, FALSE, {"Authn"}, FALSE),
   K("mpro", {}, {"Authn"}, TRUE, FALSE, {}, TRUE),
-  K("vrst", {}, {}, TRUE, TRUE, {}, FALSE) }
+  K("vrst", {}, {}, TRUE, TRUE, {}, FALSE),
+  (* a feature whose step reports Ready although nobody has to negotiate it, and a feature *)
+  (* "switched off" by prohibiting one of its own necessary bits (never eligible)          *)
+  K("vready", {}, {}, TRUE, FALSE, {"Ready"}, FALSE),
+  K("off", {"Secure"}, {"Secure"}, TRUE, FALSE, {"Authn"}, TRUE) }
 PoolThorough == PoolQuick \cup {
   K("vsec", {}, {}, TRUE, FALSE, {"Secure"}, FALSE),
   K("nsec", {"Secure"}, {}, TRUE, FALSE, {}, FALSE),
